@@ -98,6 +98,22 @@ theorem coercions (cfg : Cfg) :
   intro s h1 h2
   simp [coerceArg, h1, h2]
 
+/-- every Lean `String` (= every sequence of Unicode scalar values = every Python `str` without lone
+    surrogates) has a UTF-8 encoding that the model's validity check accepts: the representation
+    invariant `PV.wf` of the round-trip theorems is satisfiable for ALL text -/
+theorem validUtf8_string (s : String) : validUtf8 s.toUTF8.data.toList = true := by
+  have h1 : s.toUTF8 = s.toList.utf8Encode := by
+    show s.toByteArray = _
+    conv => lhs; rw [← String.ofList_toList (s := s)]
+    exact String.toByteArray_ofList
+  rw [h1]
+  unfold List.utf8Encode
+  rw [List.data_toByteArray]
+  have := validUtf8_chars s.toList []
+  have h0 : validUtf8 [] = true := rfl
+  rw [h0] at this
+  simpa using this
+
 /-! ## Refusal -/
 
 /-- Values without a faithful representation are refused: an int outside int32, a `str` with an
